@@ -202,3 +202,87 @@ Proof.
 Qed.
 
 End ForkLive.
+
+(* ================= Split ================= *)
+Section SplitLive.
+Variables (vs : list Z) (k cap : nat).
+Hypothesis Hk : 1 <= k.
+Hypothesis Hcap : 1 <= cap.
+
+Lemma split_quiescent_done c : split_inv vs k cap c -> quiescent c ->
+  tcalls (gett c 0) = [].
+Proof.
+  intros I Hq. unfold quiescent in Hq. destruct (si_h _ _ _ _ I) as [D Hh].
+  unfold view_app, view_cl in Hh.
+  destruct Hh as [cur Hph Hc Hl Hcur HD Ha Hop|cur Hph Hc Hl Hcur HD Ha Hop
+                  |v cu cur Hph Hc Hl Hcur HD Hcu Ha Hop|v cu cur Hph Hc Hl Hcur HD Hcu Ha Hop
+                  |m Hph Hc Hl Hm HD Ha Hvs Hc0 Hc1 Hc2|Hph Hc Hl Hdn HD Ha Hvs Hc0 Hc1]; auto; exfalso.
+  - destruct (feeder_quiescent vs c 1 (si_f _ _ _ _ I) (Hq 1)) as [(_ & _ & _ & Hcl)|(Hp1 & Hcl & Hfull)].
+    + apply (en_take c 0 0 [] Hph Hc); auto.
+    + rewrite (si_cap _ _ _ _ I 0) in Hfull by lia.
+      apply (en_take c 0 0 [] Hph Hc); auto. left. lia.
+  - apply (en_pop c 0 0 0 [] Hph Hc); auto.
+  - apply (en_add c 0 _ _ _ Hph Hc); auto.
+  - destruct (Nat.lt_ge_cases (qtok (getq c (S cu))) (qcap (getq c (S cu)))) as [Hlt|Hge].
+    + apply (en_send c 0 _ _ _ _ Hph Hc); auto. apply Hop. lia.
+    + rewrite (si_cap _ _ _ _ I (S cu)) in Hge by lia.
+      destruct (consumer_quiescent (S cu) c (S (S cu)) (si_c _ _ _ _ I (S cu) ltac:(lia)) (Hq _))
+        as [(Hp & Hcc)|(Hp & Htok & Hcl)]; [|lia].
+      destruct (reader_complete c (S cu) 0 (S (S cu))) as (_ & _ & Hcl & _); auto.
+      * apply (si_ch _ _ _ _ I (S cu)). lia.
+      * apply (si_c _ _ _ _ I (S cu)). lia.
+      * rewrite Hop in Hcl by lia. discriminate.
+  - destruct (Nat.eq_dec m k) as [->|Hne]; unfold close_calls in Hc.
+    + rewrite Nat.sub_diag in Hc. simpl in Hc. apply (en_done c 0 [] Hph Hc); auto.
+    + rewrite seq_S_cons in Hc by lia. simpl in Hc. apply (en_close c 0 _ _ Hph Hc); auto.
+Qed.
+
+Theorem split_quiescent_final c : split_inv vs k cap c -> quiescent c ->
+  final c = true /\ no_stuck c /\ wg c = 0 /\ all_closed_empty c /\
+  forall j, 1 <= j <= k ->
+    qapp (getq c j) = rr k (j - 1) vs /\ received (tres (gett c (S j))) = rr k (j - 1) vs /\
+    told_closed (tres (gett c (S j))).
+Proof.
+  intros I Hq. pose proof (split_quiescent_done c I Hq) as Hd0.
+  destruct (si_h _ _ _ _ I) as [D HD].
+  destruct (splith_alive _ _ _ _ _ _ _ _ HD) as [_ [[Hne _]|(_ & Hdn & Hp0 & _ & Hpop & Hcl0 & Hall)]];
+    [contradiction|].
+  assert (Hwg : wg c = 0) by (rewrite (split_wg vs k cap); auto).
+  assert (Hf : tph (gett c 1) = PIdle /\ tcalls (gett c 1) = [] /\ qapp (getq c 0) = vs).
+  { destruct (feeder_quiescent vs c 1 (si_f _ _ _ _ I) (Hq 1)) as [(? & ? & ? & ?)|(_ & Hcl & _)]; auto.
+    congruence. }
+  assert (Hc : forall j, 1 <= j <= k -> tph (gett c (S j)) = PIdle /\ tcalls (gett c (S j)) = []).
+  { intros j Hj.
+    destruct (consumer_quiescent j c (S j) (si_c _ _ _ _ I j Hj) (Hq _)) as [?|(_ & _ & Hcl)]; auto.
+    destruct (Hall j Hj) as [_ Hclj]. unfold view_cl in Hclj. congruence. }
+  destruct (waiter_quiescent c (k + 2) (si_w _ _ _ _ I) (Hq _) Hwg) as [Hpw Hcw].
+  assert (Hrc : forall j, 1 <= j <= k ->
+     received (tres (gett c (S j))) = qapp (getq c j) /\ qvals (getq c j) = [] /\
+     qclosed (getq c j) = true /\ qtok (getq c j) = 0).
+  { intros j Hj. apply (reader_complete c j 0 (S j)).
+    - replace 0 with (fP j) by (destruct j; simpl; lia).
+      replace (S j) with (fR j) by (destruct j; simpl; lia). apply (si_ch _ _ _ _ I). lia.
+    - now apply (si_c _ _ _ _ I).
+    - right. now apply Hc. }
+  split; [|split; [|split; [|split]]]; auto.
+  - apply final_of_threads. intros t Ht. rewrite (si_nt _ _ _ _ I) in Ht.
+    destruct (Nat.eq_dec t 0) as [->|H0]; [now apply thread_done_idle|].
+    destruct (Nat.eq_dec t 1) as [->|H1]; [apply thread_done_idle; tauto|].
+    destruct (Nat.le_gt_cases t (S k)) as [Hle|Hgt].
+    { destruct (Hc (t - 1) ltac:(lia)) as [? ?]. replace (S (t - 1)) with t in * by lia.
+      now apply thread_done_idle. }
+    replace t with (k + 2) by lia. now apply thread_done_idle.
+  - now apply (split_no_stuck vs k cap).
+  - intros q Hlt. rewrite (si_nq _ _ _ _ I) in Hlt.
+    destruct q as [|q].
+    + split; auto. apply (chan_drained c 0 _ _ (si_ch _ _ _ _ I 0 ltac:(lia))).
+      destruct Hf as (_ & _ & ->). auto.
+    + destruct (Hrc (S q) ltac:(lia)) as (_ & ? & ? & ?). auto.
+  - intros j Hj. destruct (Hall j Hj) as [Ha _]. unfold view_app in Ha.
+    replace (j - 1) with (pred j) by lia.
+    destruct (Hrc j Hj) as (Hr & _). split; auto. split; [congruence|].
+    pose proof (si_c _ _ _ _ I j Hj) as Hcj. destruct (Hc j Hj) as [_ Hcalls].
+    destruct Hcj as [? Hx ? ? ?|? Hx ? ? ?|? ? ? ? ? ? ?]; try congruence.
+Qed.
+
+End SplitLive.
